@@ -6,7 +6,7 @@ RULE = ("one shared Arc<Checker> driven through three shuffled passes over every
         "fresh single run; 12 process starts of the CLI (fresh hash seeds) on a file with many multi-label diagnostics, byte-compared (json2); "
         "each of a set of files (incl. expressions nested 8..4096 levels deep, which exhaust a pool thread's stack from some depth on) checked alone and next to another file, outcome compared; "
         "sequences of find_global queries through ONE library value vs the Lean cache model and vs fresh lookups; a source audit that no "
-        "hash-map / hash-set iteration in selene-lib reaches a diagnostic un-sorted; non-trivial = a program with >= 2 diagnostics or a "
+        "hash-map / hash-set iteration in selene-lib reaches a diagnostic un-sorted, and that every static / lazy_static / thread_local of both crates is on an audited list; non-trivial = a program with >= 2 diagnostics or a "
         "history that repeats a query")
 
 # bindings whose iteration order is harmless are listed with the reason; anything else is reported
@@ -40,6 +40,59 @@ def hash_iteration_audit(ctx):
                 line = src.count("\n", 0, m.start()) + 1
                 findings.append(f"{os.path.relpath(p, root)}:{line}: a hash container is collected and iterated again: {src.splitlines()[line - 1].strip()[:100]}")
     return findings
+
+
+# every place where the source keeps state that outlives one call of `Checker::test_on` (process-wide or per thread), with what
+# makes it harmless for C12: (file, construct, name or line text fragment)
+SHARED_STATE_AUDITED = {
+    ("selene-lib/src/possible_std.rs", "static", "ROBLOX_BASE_STD"): "write-once library value, the same for every file",
+    ("selene-lib/src/lints/bad_string_escape.rs", "lazy_static", ""): "compiled regular expression, immutable",
+    ("selene-lib/src/lints/undefined_variable.rs", "lazy_static", ""): "table of variable names with fields, immutable",
+    ("selene-lib/src/lib.rs", "lazy_static", ""): "lint registry, immutable",
+    ("selene-lib/src/standard_library/mod.rs", "lazy_static", ""): "`any` field constant, immutable",
+    ("selene-lib/src/standard_library/mod.rs", "static", "READ_ONLY_FIELD"): "constant field",
+    ("selene-lib/src/standard_library/mod.rs", "static", "CACHED_RESULT"): "built-in libraries parsed once, immutable afterwards",
+    ("selene-lib/src/standard_library/v1.rs", "lazy_static", ""): "constant table of the v1 upgrade",
+    ("selene-lib/src/lint_filtering.rs", "lazy_static", ""): "node kinds the filter visitor ignores, immutable",
+    ("selene/src/verif_trace.rs", "lazy_static", ""): "verification hook (feature-gated)",
+    ("selene/src/main.rs", "lazy_static", ""): "command-line options, written once before any file is read",
+    ("selene/src/main.rs", "static", "LINT_ERRORS"): "total (C18 / C19 model)",
+    ("selene/src/main.rs", "static", "LINT_WARNINGS"): "total (C18 / C19 model)",
+    ("selene/src/main.rs", "static", "PARSE_ERRORS"): "total (C18 / C19 model)",
+    ("selene/src/main.rs", "static", "STANDARD_LIBRARY_ERRORS"): "total (C18 / C19 model)",
+}
+
+
+def shared_state_audit(ctx):
+    """C12's model has one cache (the library's name tree) and the totals; anything else that survives a call — a `static`, a
+    `lazy_static!`, a `thread_local!` — must be on the audited list above, or the model no longer covers the code"""
+    found = []
+    for crate in ("selene-lib/src", "selene/src"):
+        for root, _, files in os.walk(os.path.join(vlib.REPO, crate)):
+            for f in sorted(files):
+                if not f.endswith(".rs") or f in ("test_util.rs",) or "test" in os.path.basename(root):
+                    continue
+                rel = os.path.relpath(os.path.join(root, f), vlib.REPO)
+                src = open(os.path.join(root, f), encoding="utf-8").read().replace("\r\n", "\n")
+                cut = src.find("#[cfg(test)]\nmod test")
+                if cut >= 0:
+                    src = src[:cut]
+                for i, line in enumerate(src.splitlines(), 1):
+                    code = line.split("//")[0]
+                    m = re.search(r"\bstatic\s+(?:mut\s+)?(?:ref\s+)?([A-Z_][A-Z0-9_]*)\s*:", code)
+                    if "thread_local!" in code:
+                        found.append((rel, "thread_local", "", i, line.strip()))
+                    elif "lazy_static!" in code:
+                        found.append((rel, "lazy_static", "", i, line.strip()))
+                    elif m and "static ref" not in code:
+                        found.append((rel, "static", m.group(1), i, line.strip()))
+    bad = [x for x in found if (x[0], x[1], x[2]) not in SHARED_STATE_AUDITED]
+    ctx.notes.append(f"shared-state audit: {len(found)} sites, {len(bad)} un-audited")
+    for rel, kind, name, line, text in bad:
+        ctx.violation(f"the source audit behind C12 no longer holds: {rel}:{line}: state that outlives one check ({kind}{' ' + name if name else ''}) is not on the audited list",
+                      f"{rel}:{line}: {text}\nA `static` / `lazy_static!` / `thread_local!` outside the audited list: what one file leaves there is visible to the next file on the same thread or process, "
+                      f"which the model of C12 (one library cache, totals) does not describe.",
+                      no_input=True)
 
 
 def body(ctx):
@@ -129,7 +182,8 @@ def body(ctx):
         died += alone == "process died"
     ctx.nontrivial.add("alone-vs-accompanied")
     ctx.notes.append(f"alone vs accompanied: {len(subjects)} files, {died} of them exhaust the stack of a pool thread in this (debug) build — in both invocations alike")
-    # source audit
+    # source audits
+    shared_state_audit(ctx)
     findings = hash_iteration_audit(ctx)
     ctx.notes.append(f"hash-iteration audit: {len(findings)} un-audited iteration sites")
     for f in findings:
@@ -144,4 +198,4 @@ def check(ctx):
         "thread interleavings at the memory level are not modelled: `&self` lints and `Sync` bounds are Rust's guarantee; schedules are those reached by 8 threads in repeated runs",
     ]
     return vlib.standard_check(ctx, ["Selene.Props.C12"], body,
-                               trusted=vlib.BASE_TRUST + ["tools/props/C12.py hash-iteration audit (regex over selene-lib/src)"], rule=RULE, need_selene=True)
+                               trusted=vlib.BASE_TRUST + ["tools/props/C12.py hash-iteration audit and shared-state audit (regex over selene-lib/src and selene/src)"], rule=RULE, need_selene=True)
